@@ -7,7 +7,7 @@ from . import chain as K, common as C
 POOL = int(os.environ.get("RBPV_JOBS", "12"))
 
 
-def run_pairs(scns, shared_dirs=None):
+def run_pairs(scns, shared_dirs=None, model=None):
     """runs every scenario on the implementation (in parallel) and on the model (one process).
     shared_dirs: optional {id(scn): datadir} to reuse an already written data directory."""
     def one(s):
@@ -22,6 +22,8 @@ def run_pairs(scns, shared_dirs=None):
             C.rmtree(d)
     with cf.ThreadPoolExecutor(POOL) as ex:
         impl = list(ex.map(one, scns))
+    if model is not None:
+        return impl, model
     model = []
     # the model is fed in chunks to bound the size of one stdin stream
     chunk = 40
@@ -377,7 +379,7 @@ def env_sweep(ctx, family, scns, model, comparators, in_domain, share):
         share = max(share, 0.7)       # every property gets a few dozen such runs, however few scenarios its families have
     picked = []
     for s, m in zip(scns, model):
-        if s.env or sum(f["size"] for f in s.files.values()) > (1 << 21) or len(s.kvs) > 2000:
+        if s.env or sum(len(d) for f in s.files.values() for _o, d in f["segs"]) > (1 << 21) or len(s.kvs) > 2000:
             continue
         if r.random() < share:
             picked.append((s, m))
@@ -417,8 +419,8 @@ def env_sweep(ctx, family, scns, model, comparators, in_domain, share):
                          {"scenario": scenario_dump(v), "observable": diffs[0][0]})
 
 
-def check(ctx, family, scns, comparators, shared_dirs=None, nontrivial=lambda s, m: True, in_domain=lambda s, m: True, env_share=None):
-    impl, model = run_pairs(scns, shared_dirs)
+def check(ctx, family, scns, comparators, shared_dirs=None, nontrivial=lambda s, m: True, in_domain=lambda s, m: True, env_share=None, model=None):
+    impl, model = run_pairs(scns, shared_dirs, model)
     for s, r, m in zip(scns, impl, model):
         diffs = []
         for c in list(comparators) + ([cmp_leftovers] if s.env.get("leftovers") else []):
@@ -498,45 +500,82 @@ def literal_family(ctx, callbacks, coins=("bitcoin", "litecoin"), verify=False):
 
 
 # ---- scale ---------------------------------------------------------------------------------------
-# (callback, coin, options) per property: long chains through the property's own callbacks.  n blocks in the quick tier, 6 n in thorough.
+# (callback, coin, options) per property: long chains through the property's own callbacks.  Thresholds a change may hide behind: 2^8 / 2^12 /
+# 2^14 / 2^16 blocks, transactions, distinct scripts or unspent outputs; hundreds of blk files open or revisited; 4 / 16 MiB of rows.
+def _zigzag(i):
+    """file order 0 1 0 2 1 3 2 4 3 ...: the chain comes back to the previous file once after entering the next"""
+    return 0 if i == 0 else ((i + 1) // 2 if i % 2 == 1 else i // 2 - 1)
+
+
 SCALE = {
     "C01": [("csvdump", "bitcoin", dict(n=2600, per_file=500, txs_per_block=3)), ("csvdump", "litecoin", dict(n=1200, txs_per_block=30, spend_every=2))],
-    "C02": [("csvdump", "bitcoin", dict(n=2600, start=1300, stop=2100)), ("simplestats", "litecoin", dict(n=2600, start=257, stop=2304)), ("opreturn", "bitcoin", dict(n=2600, stop=2047))],
-    "C03": [("csvdump", "bitcoin", dict(n=1500, per_file=1)), ("csvdump", "testnet3", dict(n=2600, per_file=37, pad=9))],
-    "C04": [("csvdump", "bitcoin", dict(n=2600, per_file=300))],
-    "C07": [("unspentcsvdump", "bitcoin", dict(n=2600, addresses=3000, spend_every=3)), ("unspentcsvdump", "dogecoin", dict(n=1200, txs_per_block=40, addresses=70000))],
-    "C08": [("balances", "bitcoin", dict(n=2600, addresses=3000, spend_every=3)), ("balances", "litecoin", dict(n=1200, txs_per_block=40, addresses=70000))],
-    "C09": [("csvdump", "bitcoin", dict(n=2600, verify=True, start=1)), ("balances", "litecoin", dict(n=1500, verify=True, start=1, txs_per_block=9))],
+    "C02": [("csvdump", "bitcoin", dict(n=2600, start=1300, stop=2100)), ("simplestats", "litecoin", dict(n=2600, start=257, stop=2304)), ("opreturn", "bitcoin", dict(n=2600, stop=2047)),
+            ("csvdump", "bitcoin", dict(n=1300, per_file=1)), ("simplestats", "bitcoin", dict(n=17000, per_file=1000, start=5, stop=16500))],
+    "C03": [("csvdump", "bitcoin", dict(n=1500, per_file=1)), ("csvdump", "testnet3", dict(n=2600, per_file=37, pad=9)), ("csvdump", "bitcoin", dict(n=900, interleave=300, xor=True)),
+            ("csvdump", "litecoin", dict(n=800, zigzag=True))],
+    "C04": [("csvdump", "bitcoin", dict(n=2600, per_file=300)), ("csvdump", "bitcoin", dict(n=2400, zigzag=True)), ("csvdump", "litecoin", dict(n=900, interleave=300))],
+    "C05": [("csvdump", "bitcoin", dict(n=1200, txs_per_block=62, addresses=70000))],
+    "C06": [("csvdump", "litecoin", dict(n=1200, txs_per_block=62, addresses=70000))],
+    "C07": [("unspentcsvdump", "bitcoin", dict(n=2600, addresses=3000, spend_every=3)), ("unspentcsvdump", "dogecoin", dict(n=1200, txs_per_block=62, addresses=70000))],
+    "C08": [("balances", "bitcoin", dict(n=2600, addresses=3000, spend_every=3)), ("balances", "litecoin", dict(n=1200, txs_per_block=62, addresses=70000))],
+    "C09": [("csvdump", "bitcoin", dict(n=2600, verify=True, start=1)), ("balances", "litecoin", dict(n=1500, verify=True, start=1, txs_per_block=9)),
+            ("simplestats", "bitcoin", dict(n=17000, verify=True, start=1, per_file=2000))],
     "C10": [("csvdump", "bitcoin", dict(n=2600)), ("unspentcsvdump", "bitcoin", dict(n=2600)), ("balances", "bitcoin", dict(n=2600))],
-    "C11": [("csvdump", "bitcoin", dict(n=2600, xor=True, per_file=700)), ("simplestats", "litecoin", dict(n=1500, xor=True))],
+    "C11": [("csvdump", "bitcoin", dict(n=2600, xor=True, per_file=700)), ("simplestats", "litecoin", dict(n=1500, xor=True)), ("csvdump", "bitcoin", dict(n=900, interleave=300, xor=True)),
+            ("balances", "litecoin", dict(n=800, zigzag=True, xor=True))],
     "C12": [("csvdump", "namecoin", dict(n=1300, auxpow=True)), ("simplestats", "dogecoin", dict(n=1300, auxpow=True))],
-    "C13": [("simplestats", "bitcoin", dict(n=2600, threads=3)), ("balances", "bitcoin", dict(n=2600, threads=64, addresses=3000))],
+    "C13": [("simplestats", "bitcoin", dict(n=2600, threads=3)), ("balances", "bitcoin", dict(n=2600, threads=64, addresses=3000)), ("balances", "litecoin", dict(n=1200, txs_per_block=62, addresses=500, threads=2))],
     "C14": [("opreturn", "litecoin", dict(n=1500)), ("csvdump", "namecoin", dict(n=1500))],
-    "C15": [("simplestats", "bitcoin", dict(n=2600, txs_per_block=3)), ("simplestats", "dogecoin", dict(n=1200, txs_per_block=60, spend_every=2))],
+    "C15": [("simplestats", "bitcoin", dict(n=2600, txs_per_block=3)), ("simplestats", "dogecoin", dict(n=1200, txs_per_block=60, spend_every=2)), ("simplestats", "litecoin", dict(n=17000, per_file=3000, growing=True))],
     "C16": [("opreturn", "bitcoin", dict(n=2600)), ("opreturn", "dogecoin", dict(n=2600, per_file=100))],
-    "C17": [("csvdump", "bitcoin", dict(n=1500, per_file=1, verbose=1)), ("balances", "bitcoin", dict(n=2600, per_file=2, verbose=1))],
+    "C17": [("csvdump", "bitcoin", dict(n=1500, per_file=1, verbose=1)), ("balances", "bitcoin", dict(n=2600, per_file=2, verbose=1)), ("csvdump", "bitcoin", dict(n=1200, per_file=3, verbose=1, verify=True, start=1)),
+            ("simplestats", "bitcoin", dict(n=17000, per_file=100, verbose=1)), ("csvdump", "litecoin", dict(n=900, interleave=300, verbose=1)), ("csvdump", "bitcoin", dict(n=2400, zigzag=True, verbose=1))],
 }
 
 
 def scale_family(ctx, prop):
-    """what only shows at scale: thousands of blocks, hundreds or thousands of blk files, tens of thousands of transactions and addresses,
-    running sums past 2^53 and 2^63, outputs spent thousands of blocks later — through the property's own callbacks, against the model"""
+    """what only shows at scale: thousands of blocks, hundreds or thousands of blk files (one block each; interleaved so that hundreds
+    are open at once and each is revisited; zig-zag so that every file is re-entered once), tens of thousands of transactions, distinct
+    scripts and unspent outputs, running sums past 2^53 and 2^63, outputs spent thousands of blocks later — through the property's own
+    callbacks, against the model, and under a soft limit on open descriptors of (the most blk files the model has open at once) + 64:
+    the bounded number of open files is a promise, so a run must fit"""
     from . import gen_chain as GC
     r = ctx.sub_rnd("scale")
     for k, (cb, coin, o) in enumerate(SCALE.get(prop, [])):
         o = dict(o)
-        n = o.pop("n") * (6 if ctx.thorough() else 1)
-        if o.get("per_file") == 1:
+        n = o.pop("n")
+        big = n >= 10000
+        if big and not ctx.thorough():
+            # the quick tier stops at 4 200 blocks (past 2^12); 17 000 (past 2^14) is for the thorough tier — the model's index loading is
+            # quadratic in the number of records
+            n = 4200
+            if "stop" in o:
+                o["stop"] = 4150
+        elif not big:
+            n *= (8 if ctx.thorough() else 1)
+        per_file, inter, zig = o.pop("per_file", None), o.pop("interleave", None), o.pop("zigzag", False)
+        if per_file == 1 or zig:
             n = min(n, 4000)
-        blocks = GC.long_chain(r, coin, n, addresses=o.pop("addresses", 60), txs_per_block=o.pop("txs_per_block", 1), spend_every=o.pop("spend_every", 5), auxpow=o.pop("auxpow", False))
+        if inter:
+            n = min(n, 3 * inter)
+        blocks = GC.long_chain(r, coin, n, addresses=o.pop("addresses", 60), txs_per_block=o.pop("txs_per_block", 1), spend_every=o.pop("spend_every", 5), auxpow=o.pop("auxpow", False), growing=o.pop("growing", False))
         s = K.Scenario(coin=coin, callback=cb)
-        GC.simple_layout(s, blocks, per_file=o.pop("per_file", None), pad=o.pop("pad", 5))
+        GC.simple_layout(s, blocks, per_file=per_file, pad=o.pop("pad", 5), file_of=(lambda i: i % inter) if inter else (_zigzag if zig else None))
         s.start, s.stop, s.verify = o.pop("start", 0), o.pop("stop", None), o.pop("verify", False)
-        if s.stop is not None and ctx.thorough():
-            s.start, s.stop = s.start * 6, s.stop * 6
+        if s.stop is not None and ctx.thorough() and not big:
+            s.start, s.stop = s.start * 8, s.stop * 8
         s.verbose, s.threads = o.pop("verbose", 0), o.pop("threads", None)
         if o.pop("xor", False):
             s.xorkey = GC.xor_key(r)
-        s.meta = {"scale": n, "k": k}
+            while not any(s.xorkey):
+                s.xorkey = GC.xor_key(r)
+        s.meta = {"scale": n, "k": k, "layout": "interleave-%d" % inter if inter else ("zigzag" if zig else "per-file-%s" % per_file)}
+        m = K.run_model([s])[0]
+        open_now = peak = 0
+        for kind, _f in m["ev"]:
+            open_now += 1 if kind == "open" else -1
+            peak = max(peak, open_now)
+        s.env["nofile"] = peak + 64
+        s.meta["nofile"] = peak + 64
         cmps = comparators_for(cb) + ([cmp_events] if s.verbose == 1 else [])
-        check(ctx, "scale:%s" % cb, [s], cmps, env_share=0.0, nontrivial=lambda s, m: True)
+        check(ctx, "scale:%s" % cb, [s], cmps, env_share=0.0, nontrivial=lambda s, m: True, model=[m])
